@@ -360,6 +360,7 @@ def step (d : DState) (line : String) : DState × String :=
     | _ => (d, "bad-op")
   | ["rend"] => (d, sOutcome d.run.outcome ++ " ;; " ++ sList sPub d.run.stream)
   | ["rstream"] => (d, sList sPub d.run.stream)
+  | ["rticks"] => (d, sList (fun p => sTick p.1) d.run.log)
   | ["rlog"] => (d, sList (fun p => s!"{p.2} {sTick p.1}") d.run.log)
   | _ => (d, "bad-op")
 
